@@ -14,7 +14,7 @@ package cla
 //     the real handler() only for the duration of one such operation:
 //     tick:  handler() is started with a short retryTime; its first ticker event runs exactly the
 //     retry pass of the real code. A permanent, always failing "sentinel" adapter (neither
-//     sender nor receiver, so it is never listed) is visited once per pass; on that visit it
+//     sender nor receiver, in the registry only while the pass runs) is visited once per pass; on that visit it
 //     queues a poison ConvergenceStatus whose Sender's String() method calls runtime.Goexit().
 //     After the pass the handler's select takes that message (handler evaluates cs.String())
 //     and the goroutine ends, deferred ticker.Stop() included. The sentinel counts the passes:
@@ -258,7 +258,6 @@ func v16NewExec(spec v16Spec, period, watchdog time.Duration) *v16Exec {
 		}
 	}
 	x.sentinel = &v16Sentinel{mgr: x.mgr, ch: make(chan ConvergenceStatus)}
-	x.mgr.convs.Store(x.sentinel.Address(), newConvergenceElement(x.sentinel, x.mgr.inChnl, 1<<20))
 	return x
 }
 
@@ -317,11 +316,10 @@ func (x *v16Exec) doOp(op v16Op) (outcome byte, note string) {
 		if x.closed {
 			return 'k', "" // handler() has returned: no ticker any more
 		}
-		if ce, ok := x.mgr.convs.Load(x.sentinel.Address()); ok {
-			atomic.StoreInt32(&ce.(*convergenceElem).ttl, 1<<20)
-		} else {
-			return 'd', "sentinel lost"
-		}
+		// the sentinel is registered for the duration of the pass only, so that no other operation
+		// (Close, Unregister, ...) ever meets it
+		x.mgr.convs.Store(x.sentinel.Address(), newConvergenceElement(x.sentinel, x.mgr.inChnl, 1<<20))
+		defer x.mgr.convs.Delete(x.sentinel.Address())
 		atomic.StoreInt32(&x.sentinel.passes, 0)
 		done := x.startHandler(x.period)
 		select {
@@ -711,9 +709,9 @@ func v16Sequences(alphabet []v16Op, length int, keep func([]v16Op) bool) [][]v16
 	return out
 }
 
-// pruning for the long sequences of the thorough tier: drop sequences that are equivalent to a
-// shorter one which is enumerated anyway (operations after the first close other than one probe;
-// a leading operation that cannot act on the empty registry).
+// pruning for the length-5 sequences of the thorough tier: drop sequences that are equivalent to a
+// shorter one which the quick tier enumerates anyway (a leading operation that cannot act on the
+// empty registry; operations after the first close other than one probe).
 func v16KeepPruned(ops []v16Op) bool {
 	switch ops[0].kind {
 	case 'U', 'T':
@@ -775,8 +773,21 @@ func TestVerifC16(t *testing.T) {
 		alpha1 := []v16Op{{'R', 0}, {'R', 1}, {'U', 0}, {'X', 0}, {'T', 0}, {'P', 0}, {'C', 0}}
 		var seqs1 [][]v16Op
 		if thorough {
-			seqs1 = v16Sequences(alpha1, 5, nil)
-			seqs1 = append(seqs1, v16Sequences(alpha1, 6, v16KeepPruned)...)
+			seqs1 = v16Sequences(alpha1, 5, v16KeepPruned)
+			// a deterministic sample of longer sequences
+			rs := &v16Rng{s: seed*0x9e3779b97f4a7c15 + 61}
+			for _, l := range []int{6, 6, 6, 7, 8} {
+				for k := 0; k < 60; k++ {
+					ops := make([]v16Op, l)
+					for i := range ops {
+						ops[i] = alpha1[rs.intn(len(alpha1)-1)] // no close inside
+					}
+					if rs.intn(2) == 0 {
+						ops[l-1] = v16Op{'C', 0}
+					}
+					seqs1 = append(seqs1, ops)
+				}
+			}
 		} else {
 			seqs1 = v16Sequences(alpha1, 4, nil)
 		}
@@ -806,8 +817,12 @@ func TestVerifC16(t *testing.T) {
 			}
 			return false
 		}
+		budgets2 := []int{1, 2}
+		if thorough {
+			budgets2 = []int{1}
+		}
 		for _, perm := range []bool{false, true} {
-			for _, b := range []int{1, 2} {
+			for _, b := range budgets2 {
 				for _, ops := range v16Sequences(alpha2, l2, keep2) {
 					jobs = append(jobs, v16Job{"enum2", v16Spec{budget: b, ops: ops, adapters: []v16Adapter{
 						{addr: 0, kind: 's', perm: perm, eid: 0, peer: 1},
@@ -879,8 +894,37 @@ func TestVerifC16(t *testing.T) {
 		}
 	}
 
-	// run the jobs on a pool (most of the time is spent waiting for the first ticker event)
+	// run the jobs on a pool (most of the time is spent waiting for the first ticker event); the
+	// lines are written in job order as soon as all earlier jobs are done
 	results := make([][]string, len(jobs))
+	finished := make([]bool, len(jobs))
+	var outMu sync.Mutex
+	nextOut := 0
+	lines, outcomes := 0, map[byte]int{}
+	seen := map[uint64]bool{}
+	flush := func(i int) {
+		outMu.Lock()
+		defer outMu.Unlock()
+		finished[i] = true
+		for nextOut < len(jobs) && finished[nextOut] {
+			for _, l := range results[nextOut] {
+				// sequences that share a prefix ending in a panic give the same (truncated) trace
+				h := uint64(14695981039346656037)
+				for k := 0; k < len(l); k++ {
+					h = (h ^ uint64(l[k])) * 1099511628211
+				}
+				if seen[h] {
+					continue
+				}
+				seen[h] = true
+				fmt.Fprintln(w, l)
+				lines++
+				outcomes[l[len(l)-1]]++
+			}
+			results[nextOut] = nil
+			nextOut++
+		}
+	}
 	var failMu sync.Mutex
 	var failures []string
 	var wg sync.WaitGroup
@@ -906,28 +950,15 @@ func TestVerifC16(t *testing.T) {
 					atomic.AddInt64(&totalRuns, 1)
 					if steps == nil {
 						fail("trace could not be run deterministically: " + v16Line(j.tag, j.spec, nil, make([][]byte, len(j.spec.adapters))))
-						continue
+					} else {
+						results[i] = append(results[i], v16Line(j.tag, j.spec, steps, v16Consumed(len(j.spec.adapters), reads)))
 					}
-					results[i] = append(results[i], v16Line(j.tag, j.spec, steps, v16Consumed(len(j.spec.adapters), reads)))
 				}
+				flush(i)
 			}
 		}()
 	}
 	wg.Wait()
-	lines, outcomes := 0, map[byte]int{}
-	seen := map[string]bool{}
-	for _, rs := range results {
-		for _, l := range rs {
-			// sequences that share a prefix ending in a panic give the same (truncated) trace
-			if seen[l] {
-				continue
-			}
-			seen[l] = true
-			fmt.Fprintln(w, l)
-			lines++
-			outcomes[l[len(l)-1]]++
-		}
-	}
 	fmt.Fprintf(w, "# C16 harness: %d jobs, %d distinct trace lines, final outcomes ok=%d panic=%d deadlock=%d, random traces %d (runs incl. repeats %d), %.1fs\n",
 		len(jobs), lines, outcomes['k'], outcomes['p'], outcomes['d'], totalRuns, totalTries, time.Since(t0).Seconds())
 	for _, s := range failures {
